@@ -19,6 +19,7 @@ type AssertAt struct {
 	Assume bool // `assume[label] at ...`: an environment assumption, listed in the evidence, not proved
 	C      *Clause
 	line   int // resolved source line
+	at     ssa.Instruction // resolved anchor instruction
 	done   bool
 }
 
@@ -77,6 +78,41 @@ func (e *FnEnc) resolveAsserts() {
 		case a.Occ >= 1 && a.Occ <= len(ls):
 			a.line = ls[a.Occ-1]
 		default:
+			a.line = 0
+		}
+		// the anchor instruction: a call on that line whose callee is named in the anchor text (the point just
+		// before the call, after its arguments have been evaluated); otherwise the first instruction of the line
+		a.at = nil
+		if a.line != 0 {
+			var first ssa.Instruction
+			for _, b := range e.fn.Blocks {
+				for _, in := range b.Instrs {
+					if _, isDbg := in.(*ssa.DebugRef); isDbg || !in.Pos().IsValid() || e.prog.fset.Position(in.Pos()).Line != a.line {
+						continue
+					}
+					if first == nil {
+						first = in
+					}
+					if ci, ok := in.(ssa.CallInstruction); ok && a.at == nil {
+						name := ""
+						if cc := ci.Common(); cc.IsInvoke() {
+							name = cc.Method.Name()
+						} else if f := cc.StaticCallee(); f != nil {
+							name = f.Name()
+						}
+						if name != "" && strings.Contains(a.Anchor, name+"(") {
+							a.at = in
+						}
+					}
+				}
+			}
+			if a.at == nil {
+				a.at = first
+			}
+		}
+		switch {
+		case a.line != 0:
+		default:
 			if e.pass == 2 {
 				e.structural = append(e.structural, fmt.Sprintf("assertion [%s] is anchored at source text %q (#%d) but the function now has %d such lines: the argument proved on the unchanged tree no longer applies to this code", a.C.Label, a.Anchor, a.Occ, len(ls)))
 			}
@@ -92,9 +128,8 @@ func (e *FnEnc) assertsAt(b *ssa.BasicBlock, idx int, in ssa.Instruction) {
 	if _, isDbg := in.(*ssa.DebugRef); isDbg {
 		return
 	}
-	line := e.prog.fset.Position(in.Pos()).Line
 	for _, a := range e.c.Asserts {
-		if a.done || a.line == 0 || a.line != line {
+		if a.done || a.at == nil || a.at != in {
 			continue
 		}
 		a.done = true
